@@ -120,8 +120,11 @@ def main():
         sys.exit(run(a.sid, a.tier, a.pids.split(',') if a.pids else None, a.jobs, a.scratch))
     for sid in sorted(os.listdir(SEEDED)):
         if os.path.exists(os.path.join(SEEDED, sid, 'patch.diff')):
-            print('==', sid)
-            run(sid, a.tier, None, a.jobs, a.scratch)
+            print('==', sid, flush=True)
+            try:
+                run(sid, a.tier, None, a.jobs, a.scratch)
+            except AssertionError as e:  # e.g. the patch no longer applies after a later repair of numqi: reported, not fatal
+                print('   FAILED:', str(e)[:300], flush=True)
 
 
 if __name__ == '__main__':
